@@ -208,6 +208,11 @@ def check(case):
             rows = set(np.nonzero(d_psi.any(axis=1))[0].tolist())
             cols = set(np.nonzero(d_psi.any(axis=0))[0].tolist())
             if pub_ids[k] is not None:
+                if pub_ids[k] not in uid or pub_names[k] not in lnames:
+                    case.fail('mismatch', 'entry %d is published as individual-level (%r, id %r), but no such individual / '
+                              'individual-level parameter exists (ids %r, names %r)' % (k, pub_names[k], pub_ids[k], uid,
+                                                                                        lnames))
+                    break
                 i = uid.index(pub_ids[k])
                 case.true(rows <= {i}, 'entry %d (%s, id %s) changed individuals %s' % (
                     k, pub_names[k], pub_ids[k], sorted(rows)))
